@@ -645,6 +645,8 @@ func verifyFunc(w *World, fi *FuncInfo, sweep bool) (res *FuncResult) {
 		for i, en := range c.Ensures {
 			goal := e.clause(en.X, st, names, fi.Decl.Body.Rbrace, info, clausePost)
 			e.emit(st, "post", fmt.Sprintf("post[%d]", i+1), goal, en.Tags, fi.Decl.Pos(), en.Src)
+			// clauses are proved in order: earlier ones may be used for later ones on the same path
+			st.pc = append(st.pc, goal)
 		}
 	}
 	_ = entry
